@@ -102,6 +102,44 @@ theorem c12_missing_reported (cfg : Cfg) (reg : SReg) (ctx : Ctx) (fuel : Nat) (
       intro n hn
       exact renderTok_warns_dynamic cfg _ ctx hbf.text fuel _ _ w h n (mem_varNames.mp hn)
 
+/-- Trigger of the open finding `C12-required-scan-ignores-structure`: the template has a plain `{{name}}` slot whose
+    name is unbound in the context, yet the one left-to-right expansion does not find it missing — because it never
+    evaluates that slot against the context (a loop-context key inside an each-block, an each-block that runs zero
+    times, the branch not taken). -/
+def ScanTrigger (cfg : Cfg) (reg : SReg) (ctx : Ctx) (fuel : Nat) (t : Tmpl) : Prop :=
+  ∃ n sout, specToks cfg reg ctx fuel t = .ok sout ∧ Tok.var n ∈ flatten t ∧ isBound ctx n = false ∧
+    n ∉ specMissing sout
+
+/-- PARTIAL (converse of `c12_missing_reported`: nothing BUT missing variables is reported).  Outside the trigger of
+    `C12-required-scan-ignores-structure`, with delimiter-free values: every warning names a variable that the one
+    left-to-right expansion found unbound, or is the no-such-filter notice for `{{v|name}}` with `v` bound.
+    Missing for the full statement: it is false, see `c12_required_scan_witness`. -/
+theorem c12_warnings_are_missing_partial (cfg : Cfg) (reg : SReg) (ctx : Ctx) (hbf : BF cfg ctx) (hreg : GrammarReg reg)
+    (fuel : Nat) (t : Tmpl) (ht : Grammar t) (hno : ¬ ScanTrigger cfg reg ctx (fuel + 1) t) (out : List Tok) (w : List Str)
+    (h : renderTok cfg false (tokReg reg) ctx (fuel + 1) (flatten t) = .ok (out, w)) :
+    ∃ sout, specToks cfg reg ctx (fuel + 1) t = .ok sout ∧
+      ∀ n ∈ w, n ∈ specMissing sout ∨
+        ∃ v, isBound ctx v = true ∧ isWordStr cfg n = true ∧ cfg.filters.contains n = false := by
+  have h1 := tok_eq_spec_aux cfg reg ctx hbf hreg.split (fuel + 1) t ht.1 ht.2
+  rw [h] at h1
+  cases hs : specToks cfg reg ctx (fuel + 1) t with
+  | error e => rw [hs] at h1; simp [Except.toOption] at h1
+  | ok sout =>
+    rw [hs] at h1
+    simp only [Except.toOption, Option.map, Option.some.injEq] at h1
+    subst h1
+    refine ⟨_, rfl, ?_⟩
+    intro n hn
+    rcases renderTok_warns_split cfg _ ctx fuel _ _ w h n hn with ⟨hv, hb⟩ | hf | ho
+    · by_cases hm : n ∈ specMissing out
+      · exact Or.inl hm
+      · exact absurd ⟨n, out, hs, hv, hb, hm⟩ hno
+    · exact Or.inr hf
+    · exact Or.inl (mem_varNames.mpr ho)
+
+-- FULL (false on the pinned tree): `c12_warnings_are_missing_partial` without `hno`, and "a strict render fails only
+-- if the expansion finds a variable unbound".
+
 /-! ## Unknown includes -/
 
 /-- CORE.  `{{>name}}` for a name that is not registered renders as the explicit marker that names it
@@ -190,6 +228,26 @@ theorem c12_value_reinterpreted_witness :
   refine ⟨by decide, by decide, ?_, by decide, by decide, by decide, ?_, by decide⟩
   · exact ⟨_, List.mem_cons_self, _, rfl, _, List.mem_cons_self, by decide⟩
   · exact .cons ⟨rfl, rfl, rfl, .cons rfl (.cons rfl .nil)⟩ (.cons ⟨rfl, rfl, rfl, .nil⟩ .nil)
+
+def isValueErr {α : Type} : Except Err α → Bool
+  | .error .value => true
+  | _ => false
+
+/-- WITNESS for `C12-required-scan-ignores-structure` (string layer = the code, and token layer).  The template
+    `{{#each xs}}[{{item}}]{{/each}}` with `xs = ["ab", "cd"]` and `item` not bound in the context: the trigger holds
+    (`{{item}}` is an unbound slot that the expansion never looks up: it is the loop variable), the one left-to-right
+    expansion is `[ab][cd]` with NOTHING missing — also in strict mode — yet the implementation warns about `item`, and
+    in strict mode fails with the missing-variable error. -/
+theorem c12_required_scan_witness :
+    ScanTrigger wCfg [] wCtx0 5 wTmpl ∧
+    (renderSpec wCfg true [] wCtx0 5 wTmpl).toOption = some [91, 97, 98, 93, 91, 99, 100, 93] ∧
+    (specToks wCfg [] wCtx0 5 wTmpl).toOption.map specMissing = some [] ∧
+    (translate wCfg wCtx0 5 wStr).toOption = some ([91, 97, 98, 93, 91, 99, 100, 93], [kItem]) ∧
+    isValueErr (translate { wCfg with strict := true } wCtx0 5 wStr) = true ∧
+    (renderTok wCfg false [] wCtx0 5 (flatten wTmpl)).toOption.map (·.2) = some [kItem] ∧
+    isValueErr (renderTok wCfg true [] wCtx0 5 (flatten wTmpl)) = true := by
+  refine ⟨⟨kItem, [.text [91], .val [97, 98], .text [93], .text [91], .val [99, 100], .text [93]], rfl, by decide,
+    by decide, by decide⟩, by decide, by decide, by decide, by decide, by decide, by decide⟩
 
 -- STRETCH, NOT PROVED: `c12_str_eq_tok_brace_free` —
 --   ∀ cfg ctx fuel (t : Tmpl), Grammar t → text pieces, defaults, values free of `{` and `}` →
